@@ -304,7 +304,11 @@ def derived_case(draw, max_dim=4, nwords=3, wlen=10, **kw):
 
 def cond_of(M):
     M = np.asarray(M)
-    return O.norm2(M) * O.norm2(np.linalg.inv(M))
+    # (from the singular values: the product of a long word over integer generators can be
+    # so ill-conditioned that an LU-based inverse meets an exactly zero pivot)
+    sv = np.linalg.svd(np.asarray(M, dtype=complex if np.iscomplexobj(M) else float),
+                       compute_uv=False)
+    return float(sv[0] / max(sv[-1], 1e-300))
 
 
 def check_derived(ctx, case, L, drep, f, what, degree=1, extra_cond=1.0,
@@ -317,10 +321,20 @@ def check_derived(ctx, case, L, drep, f, what, degree=1, extra_cond=1.0,
         val = drep[wstr(w)] if evaluate is None else evaluate(drep, w)
         got = as_num(extract(val))
         P, bp = L.eval(w)
-        want = np.asarray(f(P))
-        _, bd = D.eval(w)
-        nP = max(O.norm2(P), 1e-300)
-        own = degree * extra_cond * cond_of(P) * (bp / nP) * max(O.norm2(want), 1.0)
+        kP = cond_of(P)
+        if kP > 1e10:
+            # the image of this word is too ill-conditioned for f to be applied to it as a
+            # whole (inverses inside f): the reference is the product of the images of the
+            # letters under f, with its own error bound
+            ctx.label("ill-conditioned-word:reference-letter-by-letter")
+            want, bd = D.eval(w)
+            want = np.asarray(want)
+            own = 0.0
+        else:
+            want = np.asarray(f(P))
+            _, bd = D.eval(w)
+            nP = max(O.norm2(P), 1e-300)
+            own = degree * extra_cond * kP * (bp / nP) * max(O.norm2(want), 1.0)
         ctx.check(got.shape == want.shape, what + ": shape", got=got.shape, want=want.shape)
         ctx.close(what, got, want, rtol=0, atol=tol(bd + own, want), word=wstr(w))
 
@@ -1343,7 +1357,9 @@ def body_multichar(case, ctx):
     check_derived(ctx, case, L, p, lambda M: M, "ProjectiveRepresentation[[names...]]",
                   extract=lambda T: np.asarray(T.matrix).T, evaluate=ev)
     # subgroup: words are lists (default) or star strings (parse_simple=False)
-    sw = [w for w in case["words"] if len(w)] or [[names[0]]]
+    # (subgroup generators are inverted by the library: only words whose image is
+    # numerically invertible - long words over integer generators reach cond 1e20)
+    sw = [w for w in case["words"] if len(w) and cond_of(L.eval(w)[0]) < 1e8] or [[names[0]]]
     if psf:
         sub = rep.subgroup(["*".join(w) for w in sw])
     else:
